@@ -198,7 +198,7 @@ func (w *webhookExecutor) Call(webhookRequest api.WebhookRequest, webhookRespons
 	// Decode webhookResponse.
 	if strictErrors, err := kjson.UnmarshalStrict(responseBody, webhookResponse); err != nil {
 		return fmt.Errorf("can't unmarshal webhookResponse: %w", err)
-	} else if w.shouldReportStrictErrors() {
+	} else if len(strictErrors) > 0 && w.shouldReportStrictErrors() {
 		return fmt.Errorf("strict validation failed for webkookResponse: %w", utilerrors.NewAggregate(strictErrors))
 	}
 	return nil
